@@ -235,19 +235,16 @@ Theorem C10_reported_hints_in_force :
 Proof. exact @reported_hints_in_force. Qed.
 Print Assumptions C10_reported_hints_in_force.
 
-(* DEFECT F9: a hash-size hint of 0 is accepted *)
-Theorem C10_hash_sizes_refuted :
-  ~ hash_sizes_ok_full.
-Proof. exact @hash_sizes_ok_refuted. Qed.
-Print Assumptions C10_hash_sizes_refuted.
-
-Theorem C10_hash_sizes_partial :
+Theorem C10_hash_sizes_positive :
   forall (user : option Config.info) (env hook safe : option (list Base.byte)) (np : Z),
-         let ui := Config.combine_env_hints user env in
-         hash_value_ok ui Config.k_hash_dim ->
-         hash_value_ok ui Config.k_hash_var ->
-         hash_value_ok ui Config.k_hash_gattr ->
-         hash_value_ok ui Config.k_hash_vattr ->
          Config.hash_sizes_ok (fst (Config.open_config user env hook safe np)) = true.
-Proof. exact @hash_sizes_ok_partial. Qed.
-Print Assumptions C10_hash_sizes_partial.
+Proof. exact @hash_sizes_positive. Qed.
+Print Assumptions C10_hash_sizes_positive.
+
+(* F9 (fixed in /repo): the old test `< 0` accepted 0; regression guard: sanitizer runs + c10_info correspondence *)
+Theorem C10_hash_sizes_old_refuted :
+  ~
+         (forall (ui : option Config.info) (k : list Base.byte) (dflt : Z),
+          (0 < dflt)%Z -> (0 < hash_hint_old ui k dflt)%Z).
+Proof. exact @hash_sizes_old_refuted. Qed.
+Print Assumptions C10_hash_sizes_old_refuted.
